@@ -323,7 +323,7 @@ def royalties_both_sides(s):
 
 
 def royalty_cap_cfg():
-    return world.default_cfg(n_cw20=1, n_cw721=19, hostile=False, tokens_per_coll=3)
+    return world.default_cfg(n_cw20=1, n_cw721=19, hostile=False, tokens_per_coll=6)
 
 
 def royalty_cap(s):
@@ -339,8 +339,7 @@ def royalty_cap(s):
     for c in colls[1:17]:
         nft_send(s, "usr0", c, "1", {"k": "add_to_listing_cw721", "id": 1})
     nft_send(s, "usr0", colls[18], "1", {"k": "add_to_listing_cw721", "id": 1})
-    s.do({"t": "nft_transfer", "user": "usr3", "coll": colls[0], "token_id": "4", "to": "usr0"}, "valid")
-    nft_send(s, "usr0", colls[0], "4", {"k": "add_to_listing_cw721", "id": 1})     # a second NFT of the first collection, 17 NFTs later: counted once
+    nft_send(s, "usr0", colls[0], "6", {"k": "add_to_listing_cw721", "id": 1})     # a second NFT of the first collection, 17 NFTs later: counted once
     s.do(E("usr0", {"k": "finalize", "id": 1, "secs": 86400}), "valid")
     bucket(s, "usr1", 1, [["ujunox", 10000], ["uatom", 2]])
     with_faults(s, E("usr1", {"k": "buy", "lid": 1, "bid": 1}))        # exactly 50 %: allowed
